@@ -153,7 +153,7 @@ Definition coherent (p : pnode) : Prop :=
   end.
 Definition same_attrs (p q : list pnode) : Prop := map pn_attrs p = map pn_attrs q.
 (* two cache states of the same path, both coherent *)
-Definition R (p q : list pnode) : Prop := same_attrs p q /\ Forall coherent p /\ Forall coherent q.
+Definition cache_rel (p q : list pnode) : Prop := same_attrs p q /\ Forall coherent p /\ Forall coherent q.
 Definition uncached (path : list pnode) : list pnode := map (fun p => mkP (pn_attrs p) None) path.
 
 Lemma coherent_data : forall p, coherent p ->
@@ -163,7 +163,7 @@ Proof. intros [a [d|]] H; cbn in *; [subst; reflexivity|reflexivity]. Qed.
 Lemma coherent_fresh : forall a d, d = get_bem_data a None -> coherent (mkP a (Some d)).
 Proof. intros a d ->. reflexivity. Qed.
 
-Lemma R_uncached : forall p, Forall coherent p -> R p (uncached p).
+Lemma R_uncached : forall p, Forall coherent p -> cache_rel p (uncached p).
 Proof.
   intros p H. split; [|split; [exact H|]].
   - unfold same_attrs, uncached. rewrite map_map. reflexivity.
@@ -226,8 +226,8 @@ Lemma gbn_loop_unfold : forall path ix,
     end.
 Proof. intros path [|k]; reflexivity. Qed.
 
-Lemma gbn_step_R : forall p q ix, R p q ->
-  fst (gbn_step p ix) = fst (gbn_step q ix) /\ R (snd (gbn_step p ix)) (snd (gbn_step q ix))
+Lemma gbn_step_R : forall p q ix, cache_rel p q ->
+  fst (gbn_step p ix) = fst (gbn_step q ix) /\ cache_rel (snd (gbn_step p ix)) (snd (gbn_step q ix))
   /\ same_attrs (snd (gbn_step p ix)) p.
 Proof.
   intros p q ix [HS [HP HQ]]. unfold gbn_step, get_item.
@@ -247,8 +247,8 @@ Lemma same_attrs_trans : forall a b c, same_attrs a b -> same_attrs b c -> same_
 Proof. unfold same_attrs. intros. congruence. Qed.
 
 (* the loop: same block found, whatever the (coherent) cache state; attributes untouched; coherence kept *)
-Lemma gbn_loop_R : forall ix p q, R p q ->
-  fst (gbn_loop p ix) = fst (gbn_loop q ix) /\ R (snd (gbn_loop p ix)) (snd (gbn_loop q ix))
+Lemma gbn_loop_R : forall ix p q, cache_rel p q ->
+  fst (gbn_loop p ix) = fst (gbn_loop q ix) /\ cache_rel (snd (gbn_loop p ix)) (snd (gbn_loop q ix))
   /\ same_attrs (snd (gbn_loop p ix)) p.
 Proof.
   induction ix as [|k IH]; intros p q HR; rewrite !gbn_loop_unfold;
@@ -260,9 +260,9 @@ Proof.
   eapply same_attrs_trans; eauto.
 Qed.
 
-Lemma get_block_name_R : forall p q depth ctx, R p q ->
+Lemma get_block_name_R : forall p q depth ctx, cache_rel p q ->
   fst (get_block_name p depth ctx) = fst (get_block_name q depth ctx)
-  /\ R (snd (get_block_name p depth ctx)) (snd (get_block_name q depth ctx))
+  /\ cache_rel (snd (get_block_name p depth ctx)) (snd (get_block_name q depth ctx))
   /\ same_attrs (snd (get_block_name p depth ctx)) p.
 Proof.
   intros p q depth ctx HR. unfold get_block_name.
@@ -270,8 +270,8 @@ Proof.
   destruct (gbn_loop_R (length p - depth) p q HR) as [E [HR1 HS1]].
   destruct (gbn_loop p _) as [fp p1]; destruct (gbn_loop q _) as [fq q1]. cbn [fst snd] in *. subst fq.
   destruct fp as [b|]; [cbn [fst snd]; auto|].
-  destruct ctx as [cls|]; [|cbn [fst snd]; auto].
-  destruct (truthy_str (bd_block (parse_bem cls))); cbn [fst snd]; auto.
+  destruct ctx as [bem_cls|]; [|cbn [fst snd]; auto].
+  destruct (truthy_str (bd_block (parse_bem bem_cls))); cbn [fst snd]; auto.
 Qed.
 
 (* CACHE TRANSPARENCY for get_block_name: on a coherent path the block name is the one the cache-free reading gives *)
@@ -285,8 +285,8 @@ Proof.
 Qed.
 
 (* expand_short_notation, one class name / all class names *)
-Lemma esn_class_R : forall cfg p q cl, R p q ->
-  fst (esn_class cfg p cl) = fst (esn_class cfg q cl) /\ R (snd (esn_class cfg p cl)) (snd (esn_class cfg q cl))
+Lemma esn_class_R : forall cfg p q cl, cache_rel p q ->
+  fst (esn_class cfg p cl) = fst (esn_class cfg q cl) /\ cache_rel (snd (esn_class cfg p cl)) (snd (esn_class cfg q cl))
   /\ same_attrs (snd (esn_class cfg p cl)) p.
 Proof.
   intros cfg p q cl HR. unfold esn_class.
@@ -304,8 +304,8 @@ Proof.
     cbn [fst snd] in *. subst b2'. auto.
 Qed.
 
-Lemma esn_loop_R : forall cfg l p q, R p q ->
-  fst (esn_loop cfg p l) = fst (esn_loop cfg q l) /\ R (snd (esn_loop cfg p l)) (snd (esn_loop cfg q l))
+Lemma esn_loop_R : forall cfg l p q, cache_rel p q ->
+  fst (esn_loop cfg p l) = fst (esn_loop cfg q l) /\ cache_rel (snd (esn_loop cfg p l)) (snd (esn_loop cfg q l))
   /\ same_attrs (snd (esn_loop cfg p l)) p.
 Proof.
   intros cfg. induction l as [|cl l IH]; intros p q HR; cbn [esn_loop].
@@ -317,7 +317,7 @@ Proof.
     split; [reflexivity|]. split; [exact HR2|]. eapply same_attrs_trans; eauto.
 Qed.
 
-Lemma R_app_self : forall p q a, R p q -> R (p ++ [mkP a None]) (q ++ [mkP a None]).
+Lemma R_app_self : forall p q a, cache_rel p q -> cache_rel (p ++ [mkP a None]) (q ++ [mkP a None]).
 Proof.
   intros p q a [HS [HP HQ]]. split; [|split].
   - unfold same_attrs in *. rewrite !map_app, HS. reflexivity.
@@ -358,9 +358,9 @@ Qed.
 
 (* CACHE TRANSPARENCY for one bem() call: two coherent cache states of the same ancestors give the SAME node;
    the ancestors keep their attributes and stay coherent *)
-Theorem bem_R : forall cfg anc anc' n, R anc anc' ->
+Theorem bem_R : forall cfg anc anc' n, cache_rel anc anc' ->
   exists n' p1 p2, bem cfg anc n = Ok (n', p1) /\ bem cfg anc' n = Ok (n', p2)
-    /\ R (firstn (length anc) p1) (firstn (length anc') p2)
+    /\ cache_rel (firstn (length anc) p1) (firstn (length anc') p2)
     /\ map pn_attrs (firstn (length anc) p1) = map pn_attrs anc
     /\ same_attrs p1 p2.
 Proof.
@@ -415,17 +415,17 @@ Proof. intros a. exact I. Qed.
 (* ... and the self query is exactly where it breaks: .b>.-e with separators "__" / "_".  The second node queries
    its own block (depth 1), caches the data of class "-e" (no block), then becomes class "b__e": its entry is not
    coherent, and its child .-x gets block b from it (b__x) where the cache-free reading gives b__e (b__e__x). *)
-Definition cls (s : str) : option (list aattr) := Some [mkAAttr (Some s_class) (Some [VStr s]) VRaw false false false].
-Definition nd (s : str) : anode := ANode None None None (cls s) [] false.
+Definition bem_cls (s : str) : option (list aattr) := Some [mkAAttr (Some s_class) (Some [VStr s]) VRaw false false false].
+Definition bem_nd (s : str) : anode := ANode None None None (bem_cls s) [] false.
 Example self_query_breaks_coherence :
   let cfg := mkBemCfg [95;95]%N [95]%N None in
-  let top := [mkP (cls [98]%N) None] in
+  let top := [mkP (bem_cls [98]%N) None] in
   exists n2 p2,
-    bem cfg top (nd [45;101]%N) = Ok (n2, p2)
-    /\ an_attrs n2 = cls [98;95;95;101]%N                                   (* b__e *)
+    bem cfg top (bem_nd [45;101]%N) = Ok (n2, p2)
+    /\ an_attrs n2 = bem_cls [98;95;95;101]%N                                   (* b__e *)
     /\ ~ Forall coherent p2
-    /\ (exists n3 p3, bem cfg p2 (nd [45;120]%N) = Ok (n3, p3) /\ an_attrs n3 = cls [98;95;95;120]%N)              (* b__x *)
-    /\ (exists n3 p3, bem cfg (uncached p2) (nd [45;120]%N) = Ok (n3, p3) /\ an_attrs n3 = cls [98;95;95;101;95;95;120]%N).
+    /\ (exists n3 p3, bem cfg p2 (bem_nd [45;120]%N) = Ok (n3, p3) /\ an_attrs n3 = bem_cls [98;95;95;120]%N)              (* b__x *)
+    /\ (exists n3 p3, bem cfg (uncached p2) (bem_nd [45;120]%N) = Ok (n3, p3) /\ an_attrs n3 = bem_cls [98;95;95;101;95;95;120]%N).
 Proof.
   cbv zeta. eexists _, _. split; [vm_compute; reflexivity|].
   split; [reflexivity|]. split.
